@@ -308,7 +308,13 @@ def run(ctx):
     cf = {}
     for n in range(1, 51):
         with ctx.guard("C14/corner_first_ndindex", dict(n=n)):
-            cf[n] = [tuple(int(x) for x in t) for t in corner_first_ndindex(n)]
+            got_cf = corner_first_ndindex(n)
+            cf[n] = [tuple(int(x) for x in t) for t in got_cf]
+            # the list belongs to the caller: sorted / trimmed in place before the same size is asked for again (below, and by the
+            # uniform tokenizers built afterwards)
+            if isinstance(got_cf, list) and n % 2:
+                got_cf.sort(); del got_cf[:1]
+                ctx.tally("c14:corner-first-answer-edited-by-caller")
     for n in list(range(50, 0, -1)) + [int(x) for x in ctx.sub_rng("cf-order").permutation(50) + 1]:
         # again in descending and random order: the answer may not depend on what was asked before
         with ctx.guard("C14/corner_first_ndindex", dict(n=n)):
